@@ -1124,7 +1124,7 @@ for (Py_ssize_t i = 0; i < size; i++) {{+
 PyObject *item = PySequence_Fast_GET_ITEM(seq, i);
 ierr = {__helper}(item, &itemvalue);
 if (ierr == 0) {{+
-Py_XDECREF(itemvalue.dataobj);
+// itemvalue.dataobj is not set on failure (and already released for earlier items).
 Py_DECREF(dataobj);
 Py_DECREF(seq);
 PyErr_Format(PyExc_TypeError,\t "argument '%s', index %d must be {fcn_type}",\t value->name,\t (int) i);
